@@ -404,12 +404,13 @@ Definition compile_type (t0 : jt) (m : cmap) : R (jt * cmap) :=
         (if is "mixed" val then err ErrNotFoundRuleOr      (* such a root never has a types list *)
          else if is "enum" val then (if chas CEnum m then Ok (t0, m) else err ErrNotFoundRuleEnum)
          else if is "any" val then (do m1 <- add_mark CAny m; Ok (t0, m1))
-         else if is "decimal" val then (if chas CPrecision m then Ok (t0, m) else err ErrNotFoundRulePrecision)
-         else if is "email" val then (do m1 <- add_mark CEmail m; Ok (t0, m1))
-         else if is "uri" val then (do m1 <- add_mark CUri m; Ok (t0, m1))
-         else if is "uuid" val then (do m1 <- add_mark CUuid m; Ok (t0, m1))
-         else if is "date" val then (do m1 <- add_mark CDate m; Ok (t0, m1))
-         else if is "datetime" val then (do m1 <- add_mark CDateTime m; Ok (t0, m1))
+         (* fix bcaaadc: the root of a rule-set gets the JSON type of the values of the declared type (jsonTypeOfSchemaType) *)
+         else if is "decimal" val then (if chas CPrecision m then Ok (JFloat, m) else err ErrNotFoundRulePrecision)
+         else if is "email" val then (do m1 <- add_mark CEmail m; Ok (JString, m1))
+         else if is "uri" val then (do m1 <- add_mark CUri m; Ok (JString, m1))
+         else if is "uuid" val then (do m1 <- add_mark CUuid m; Ok (JString, m1))
+         else if is "date" val then (do m1 <- add_mark CDate m; Ok (JString, m1))
+         else if is "datetime" val then (do m1 <- add_mark CDateTime m; Ok (JString, m1))
          else match new_json_type val with
               | Some t => Ok (t, m)
               | None => err ErrUnknownType
@@ -696,7 +697,13 @@ Definition enum_append (tok : bytes) (comment : bytes) (en : enumv) : R enumv :=
   | None => Fail FGo
   | Some t =>
     let v := match t with JString => unquote b | _ => b end in
-    if existsb (fun i => (beq (ei_value i) v && jt_eqb (ei_jt i) t)%bool) (en_items en)
+    (* uniqueKey (fix 7bb5f56): numbers of one kind are the same value whatever the spelling; the stored value stays as written *)
+    let key (x : bytes) (k : jt) : bytes :=
+        match k with
+        | JInteger | JFloat => match NumModel.scan x with Some n => NumModel.num_string n | None => x end
+        | _ => x
+        end in
+    if existsb (fun i => (beq (key (ei_value i) (ei_jt i)) (key v t) && jt_eqb (ei_jt i) t)%bool) (en_items en)
     then err ErrDuplicationInEnumRule
     else Ok (mkenumv (en_items en ++ [mkeitem v t comment]) (en_rule en) (en_w en))
   end.
@@ -736,7 +743,7 @@ Definition enum_step (S : src) (env : envt) (s : enum_st) (e : lexev) (en : enum
   | EnCommentEnd =>
     match e_type e with
     | InlineAnnotationTextEnd =>
-      do v <- evalue S e; do en' <- enum_set_comment v en; Ok (EnAnnotationEnd, en', true)
+      do v <- evalue S e; do en' <- enum_set_comment (trim_spaces v) en; Ok (EnAnnotationEnd, en', true)
     | _ => err ErrLoader
     end
   | EnAnnotationEnd =>
@@ -792,6 +799,13 @@ Definition enum_step_in (S : src) (env : envt) (s : enum_st) (e : lexev) (m : cm
   | None => Fail FStuck
   end.
 
+(* isNoteInsideAnnotation (fix b1776a9): the lexemes of a "// note" written between the rules of a multi-line annotation *)
+Definition is_note_ev (t : ev) : bool :=
+  match t with
+  | InlineAnnotationBegin | InlineAnnotationTextBegin | InlineAnnotationTextEnd | InlineAnnotationEnd => true
+  | _ => false
+  end.
+
 (* ------------------------------------------------------------------ allOfValueLoader *)
 Inductive allof_st := AoBegin | AoItemOrEnd | AoItemValue | AoItemEnd | AoScalar | AoEnd.
 (* AllOf.Append *)
@@ -811,6 +825,7 @@ Definition allof_step_in (S : src) (s : allof_st) (e : lexev) (m : cmap) : R (al
       | _ => err ErrUnacceptableValueInAllOfRule
       end
     | AoItemOrEnd =>
+      if is_note_ev (e_type e) then go AoItemOrEnd else
       match e_type e with
       | ArrayItemBegin => go AoItemValue
       | ArrayEnd => Ok (AoEnd, m, false)
@@ -886,6 +901,15 @@ Fixpoint written_props (m : cmap) : list (bytes * rval) :=
               end
   end.
 
+(* setJsonTypeByRules (fix bcaaadc): a rule-set without the "type" rule gets the JSON type its rules leave; the one of the outer example when
+   it is among them, otherwise float rather than integer, otherwise the first *)
+Definition jt_by_rules (t0 : jt) (m : cmap) : jt :=
+  let tt := filter (fun t => forallb (fun e => compat (ce_t e) t) m) all_jts in
+  match tt with
+  | [] => t0
+  | t :: _ => if existsb (jt_eqb t0) tt then t0 else if existsb (jt_eqb JFloat) tt then JFloat else t
+  end.
+
 (* makeTypeFromRuleSet; [pos] = Begin() of the ObjectEnd event *)
 Definition make_type_from_rule_set (d : ndata) (r : rsl) : R ndata :=
   let m := rs_cs r in
@@ -902,7 +926,8 @@ Definition make_type_from_rule_set (d : ndata) (r : rsl) : R ndata :=
     if user then types_add d true an w
     else
       let declared := match type_bytes m with Some v => unquote v | None => [] end in
-      do c <- catch (nd_lb d) (compile_mixed (rs_jt r) m);      (* CompileBasic(&typ, false) *)
+      let t0 := match type_bytes m with Some _ => rs_jt r | None => jt_by_rules (rs_jt r) m end in
+      do c <- catch (nd_lb d) (compile_mixed t0 m);      (* CompileBasic(&typ, false) *)
       (* checkCompatibilityOfConstraints *)
       do _ <-
         (* without a declared JSON type the rule-set may describe any JSON type; every rule narrows the
@@ -919,6 +944,7 @@ Definition rs_step (S : src) (env : envt) (d : ndata) (r : rsl) (e : lexev) : R 
    | RsObjectBegin =>
      match e_type e with ObjectBegin => Ok (rs_set RsKeyOrEnd r, d, true) | _ => err ErrLoader end
    | RsKeyOrEnd =>
+     if is_note_ev (e_type e) then Ok (r, d, true) else
      match e_type e with
      | ObjectKeyBegin => Ok (r, d, true)
      | ObjectKeyEnd =>
@@ -931,11 +957,13 @@ Definition rs_step (S : src) (env : envt) (d : ndata) (r : rsl) (e : lexev) : R 
      | _ => err ErrLoader
      end
    | RsValueBegin =>
+     if is_note_ev (e_type e) then Ok (r, d, true) else
      match e_type e with ObjectValueBegin => Ok (rs_set RsValueLiteral r, d, true) | _ => err ErrLoader end
    | RsEnumValueBegin =>
+     if is_note_ev (e_type e) then Ok (r, d, true) else
      match e_type e with
      | ObjectValueBegin =>
-       do m <- base_add (enum_entry new_enum) (rs_cs r);
+       do m <- catch (rs_nb r) (base_add (enum_entry new_enum) (rs_cs r));      (* fix 3bdc34e: addConstraint *)
        Ok (rs_set_cs (RsEmbedded EnBegin) m r, d, true)
      | _ => err ErrLoader
      end
@@ -947,7 +975,7 @@ Definition rs_step (S : src) (env : envt) (d : ndata) (r : rsl) (e : lexev) : R 
        do v <- evalue S e;
        do _ <- node_value S d;
        do c <- new_constraint env (unquote (trim_spaces nv)) (rs_nb r) v;
-       do m <- base_add c (rs_cs r);
+       do m <- catch (rs_nb r) (base_add c (rs_cs r));
        Ok (rs_set_cs RsValueEnd m r, d, true)
      | _ => err ErrLiteralValueExpected
      end
@@ -983,6 +1011,7 @@ Definition or_step (S : src) (env : envt) (s : or_st) (rs : option rsl) (d : nda
        | _ => err ErrArrayWasExpectedInOrRule
        end
      | OrItemOrEnd =>
+       if is_note_ev (e_type e) then Ok (OrItemOrEnd, None, d, true) else
        match e_type e with
        | ArrayItemBegin => Ok (OrItemInner, None, d, true)
        | ArrayEnd =>
@@ -1104,6 +1133,7 @@ Definition rl_step (S : src) (env : envt) (r : rl) (e : lexev) : R rl :=
      | _ => err ErrLoader
      end
    | RKeyOrObjectEnd =>
+     if is_note_ev (e_type e) then Ok r else
      match e_type e with
      | ObjectKeyBegin | NewLine => Ok r
      | ObjectKeyEnd => Ok (mkrl (rl_node r) (rl_cnt r) RValueBegin (e_begin e) (e_end e))
@@ -1111,6 +1141,7 @@ Definition rl_step (S : src) (env : envt) (r : rl) (e : lexev) : R rl :=
      | _ => err ErrLoader
      end
    | RObjectEndAfterRuleName =>
+     if is_note_ev (e_type e) then Ok r else
      match e_type e with
      | ObjectKeyBegin | ObjectValueEnd | NewLine => Ok r
      | ObjectKeyEnd => Ok (mkrl (rl_node r) (rl_cnt r) RValueBegin (e_begin e) (e_end e))
@@ -1118,7 +1149,12 @@ Definition rl_step (S : src) (env : envt) (r : rl) (e : lexev) : R rl :=
      | _ => err ErrLoader
      end
    | RValueBegin =>
-     match e_type e with ObjectValueBegin => Ok (rl_set RValue r) | _ => err ErrLoader end
+     if is_note_ev (e_type e) then Ok r else
+     match e_type e with
+     | NewLine => Ok r                       (* a line break between the rule name, the colon and the value *)
+     | ObjectValueBegin => Ok (rl_set RValue r)
+     | _ => err ErrLoader
+     end
    | RValue =>
      if N.eqb (rl_cnt r) 0 then err ErrIncorrectRuleWithoutExample
      else if negb (N.eqb (rl_cnt r) 1) then err ErrIncorrectRuleForSeveralNode
@@ -1133,10 +1169,10 @@ Definition rl_step (S : src) (env : envt) (r : rl) (e : lexev) : R rl :=
            do d2 <- node_add d1 (mkce COr (VOr false) None);
            load_embedded S env r (EmbOr OrBegin None) d2 e
          else if is "enum" name then
-           do d1 <- node_add d (enum_entry new_enum);
+           do d1 <- catch (rl_nb r) (node_add d (enum_entry new_enum));      (* fix 3bdc34e: addConstraint *)
            load_embedded S env r (EmbEnum EnBegin) d1 e
          else if is "allOf" name then
-           do d1 <- node_add d (mkce CAllOf (VAllOf [] false) (Some (RArr [])));
+           do d1 <- catch (rl_nb r) (node_add d (mkce CAllOf (VAllOf [] false) (Some (RArr []))));
            load_embedded S env r (EmbAllOf AoBegin) d1 e
          else
            match e_type e with
@@ -1154,7 +1190,7 @@ Definition rl_step (S : src) (env : envt) (r : rl) (e : lexev) : R rl :=
          do _ <- node_value S d;
          do nv <- value S (rl_nb r) (rl_ne r);
          do c <- new_constraint env (unquote (trim_spaces nv)) (rl_nb r) v;
-         do d' <- node_add d c;
+         do d' <- catch (rl_nb r) (node_add d c);
          Ok (rl_set_node d' RValueEnd r)
        end
      | _ => err ErrLoader
@@ -1545,7 +1581,7 @@ Definition loader_model_line (line : bytes) : bytes :=
   end.
 
 (* ------------------------------------------------------------------ a few evaluated examples *)
-Example ex_dup_rule : load (of_string "1 // {min: 1, min: 2}") = LError 501 19.
+Example ex_dup_rule : load (of_string "1 // {min: 1, min: 2}") = LError 501 14.   (* at the second name since fix 3bdc34e *)
 Proof. vm_compute. reflexivity. Qed.
 Example ex_several_nodes : load (of_string "{""a"": 1, ""b"": 2 // {min: 1}
 }") = LError 804 25.
